@@ -392,7 +392,11 @@ impl Runner {
                 res
             }
             Op::RemoveParent { inst, name, parent } => {
-                self.exec_remove_parent(inst, &name, &parent)
+                // Best-effort revocation, like deleting a CA.
+                crate::net::set_quiet(true);
+                let res = self.exec_remove_parent(inst, &name, &parent);
+                crate::net::set_quiet(false);
+                res
             }
             Op::DeleteCa { inst, name } => {
                 // Deleting a CA revokes and withdraws "best effort": what a
